@@ -1,3 +1,4 @@
+pub mod adeval;
 pub mod civil;
 pub mod roll;
 pub mod rules;
